@@ -793,18 +793,41 @@ func (h *harness) checkOracles(st manager.VerifState) {
 			if !determined {
 				continue
 			}
-			// the normal form of a NEGATED undecided tag whose definition refers to further undecided tags grows
-			// exponentially (inlining + De Morgan; C14's quantifier names that): those searches are not issued
-			nested := false
-			for _, rn := range append(append([]string(nil), t.MainTags...), t.SubQueryTags...) {
-				for _, t2 := range st.Tags {
-					if t2.Name == rn && len(t2.Uncertain) != 0 {
-						nested = true
+			// Deciding an undecided tag on the fly inlines its definition, and the definitions of the undecided tags
+			// it refers to, into the query; a negation on the way is expanded by De Morgan, so the normal form grows
+			// exponentially with the nesting of undecided references (C14's quantifier names that). Searches are
+			// issued only where that stays small: `tag:x` when the undecided tags x refers to do not refer to
+			// undecided tags themselves, `-tag:x` when x refers to no undecided tag at all.
+			var udepth func(name string, seen map[string]bool) int
+			udepth = func(name string, seen map[string]bool) int {
+				if seen[name] {
+					return 99
+				}
+				seen[name] = true
+				defer delete(seen, name)
+				d := 0
+				for _, t1 := range st.Tags {
+					if t1.Name != name {
+						continue
+					}
+					for _, rn := range append(append([]string(nil), t1.MainTags...), t1.SubQueryTags...) {
+						for _, t2 := range st.Tags {
+							if t2.Name == rn && len(t2.Uncertain) != 0 {
+								if x := 1 + udepth(rn, seen); x > d {
+									d = x
+								}
+							}
+						}
 					}
 				}
+				return d
+			}
+			depth := 0
+			if len(t.Uncertain) != 0 {
+				depth = udepth(t.Name, map[string]bool{})
 			}
 			for _, neg := range []bool{false, true} {
-				if neg && nested && len(t.Uncertain) != 0 {
+				if (neg && depth > 0) || depth > 1 {
 					continue
 				}
 				text := k + ":" + nm + " sort:id"
